@@ -15,6 +15,9 @@
 //	runs <path> <format> <f|n> <seed> <mod> <lens> <max>  TAB  cases=<n> …    (long runs, see worker.go)
 //	fields <path> <format> <f|n> <seed> <mod> <max> <pats> TAB  cases=<n> …    (field-aware saturation, see worker.go)
 //	near <path> <format> <f|n> <seed> <mod> <max>        TAB  cases=<n> …    (directed search: bytes the decoder read, see sites.go)
+//	chunk <carrier> <format> <f|n> <seed> <mod> <level> <k> <extra> TAB cases=<n> … (chunk-boundary family, see chunks.go)
+//	rd <nal|unsync> <stale> <hex> <plen/c,…>             TAB  <n>:<hex>,…      (the reader's Read driven call by call, chunks.go)
+//	rdall <nal|unsync> <fill> <len> <off.hex,…>          TAB  <plen/n,…> <len>:<fnv>  (… between IOReader and bytes.Buffer.ReadFrom)
 //	dprog <format> <f|n> <hex>                           TAB  <class> <leaves>  (DProg correspondence, see dprog.go)
 //	d|i <path> <mut> <format> <f|n>                     TAB  <obs>          (every panic / resource case, every `i` case, replays)
 //	core <prim> <arg> <buf bytes> <pos bits> <f|n>      TAB  ok | err:io | err:decoder | panic:… | resource:…
@@ -227,6 +230,7 @@ type tierParams struct {
 	runLens     string // lengths of the long runs
 	runFields   int    // header fields tried as size fields per (file, format)
 	fieldsUnit  int // bytes of file size per unit of the fields sampling modulus
+	thorough    bool
 }
 
 func genJobs(r *hlib.Rand, seed uint64, tp tierParams, o *hlib.Out, workDir string, sitesCh chan sitesResult) []*job {
@@ -417,6 +421,7 @@ func genJobs(r *hlib.Rand, seed uint64, tp tierParams, o *hlib.Out, workDir stri
 	o.Stat("cross_format_files", nSmall)
 	o.Stat("formats_registered", len(names))
 	// regenerated fault-site table against the committed baseline: directed search for the formats of changed packages
+	readersChanged := map[string][]string{} // package -> byte constants of its changed Read methods
 	if sitesCh != nil {
 		res := <-sitesCh
 		if res.err != nil {
@@ -438,6 +443,31 @@ func genJobs(r *hlib.Rand, seed uint64, tp tierParams, o *hlib.Out, workDir stri
 				fmt.Fprintf(os.Stderr, "c06: site baseline: %v\n", err)
 				o.Case("sites baseline", "badcase:site-baseline-unreadable")
 			}
+			rc, err2 := changedReaderPackages(res.rows)
+			if err2 != nil {
+				fmt.Fprintf(os.Stderr, "c06: site baseline: %v\n", err2)
+			}
+			nreaders := 0
+			for _, r := range res.rows {
+				nreaders += len(r.Readers)
+			}
+			o.Stat("sites_reader_methods", nreaders)
+			for _, r := range rc {
+				readersChanged[r.Pkg] = r.ReaderBytes
+				o.Stat("readers_changed:"+r.Pkg, 1)
+				o.Sample("reader sites changed: " + r.Pkg + " " + strings.Join(r.Readers, ",") + " => directed chunk-boundary search")
+				fmt.Fprintf(os.Stderr, "c06: sites inside the Read methods of %s changed (%v): directed chunk-boundary search\n", r.Pkg, r.Readers)
+				known := false
+				for _, c := range carriers {
+					known = known || c.pkg == r.Pkg
+				}
+				if !known {
+					// an io.Reader the harness has no carrier for: said loudly; the package's formats still get the
+					// ordinary directed search below (its closure hash changed too)
+					o.Stat("readers_changed_without_carrier:"+r.Pkg, 1)
+					fmt.Fprintf(os.Stderr, "c06: NOTE no chunk-boundary carrier is defined for the readers of %s (harness/cmd/c06/chunks.go `carriers`)\n", r.Pkg)
+				}
+			}
 			var fmts, pk []string
 			for _, c := range changed {
 				fmts = append(fmts, c.Formats...)
@@ -455,6 +485,10 @@ func genJobs(r *hlib.Rand, seed uint64, tp tierParams, o *hlib.Out, workDir stri
 			}
 		}
 	}
+	// chunk-boundary family (chunks.go): always; denser for the packages whose Read methods changed
+	cj := chunkJobs(seed, tp.thorough, readersChanged)
+	o.Stat("chunk_jobs", len(cj))
+	jobs = append(jobs, cj...)
 	sort.SliceStable(jobs, func(a, b int) bool { return jobs[a].size > jobs[b].size })
 	return jobs
 }
@@ -635,6 +669,19 @@ func main() {
 	var jobs []*job
 	if cfg.Replay != "" {
 		for _, l := range hlib.ReplayLines(cfg.Replay) {
+			if strings.HasPrefix(l, "rd ") || strings.HasPrefix(l, "rdall ") { // read-chunk correspondence (chunks.go)
+				obs, ok := "", false
+				if strings.HasPrefix(l, "rd ") {
+					obs, ok = runRdOp(l)
+				} else {
+					obs, ok = runRdallOp(l)
+				}
+				if !ok {
+					obs = "badcase:parse"
+				}
+				emitRd(o, l, obs)
+				continue
+			}
 			if strings.HasPrefix(l, "dprog ") { // DProg correspondence cases run in this process (dprog.go)
 				obs, ok := runDprogOp(l)
 				if !ok {
@@ -648,7 +695,7 @@ func main() {
 	} else {
 		tp := tierParams{perDir: 12, modOwn: 50, modCross: 400, chunk: 300, modFields: 1, maxFields: 400, fieldPats: "zm", fieldsUnit: 1024, modTypes: 16, typesUnit: 4096, maxTypes: 400, modRuns: 1, runsUnit: 8192, runLens: "32768,65537", runFields: 12}
 		if cfg.Thorough() {
-			tp = tierParams{perDir: 60, modOwn: 6, modCross: 40, fullBelow: 400, chunk: 400, modFields: 1, maxFields: 2000, pairSeeds: true, fieldPats: "zo1ms", fieldsUnit: 1024, modTypes: 2, typesUnit: 8192, maxTypes: 3000, modRuns: 1, runsUnit: 16384, runLens: "4097,32768,32769,65537,524289", runFields: 12}
+			tp = tierParams{thorough: true, perDir: 60, modOwn: 6, modCross: 40, fullBelow: 400, chunk: 400, modFields: 1, maxFields: 2000, pairSeeds: true, fieldPats: "zo1ms", fieldsUnit: 1024, modTypes: 2, typesUnit: 8192, maxTypes: 3000, modRuns: 1, runsUnit: 16384, runLens: "4097,32768,32769,65537,524289", runFields: 12}
 		}
 		if v, err := strconv.Atoi(os.Getenv("VERIF_C06_MOD")); err == nil && v > 0 {
 			tp.modOwn = v
@@ -667,6 +714,7 @@ func main() {
 		}
 		if !*count {
 			dprogRun(o, cfg.Seed, cfg.Thorough())
+			chunkCorrRun(o, cfg.Seed, cfg.Thorough())
 		}
 		if *dprogOnly {
 			return
